@@ -293,6 +293,11 @@ pub fn dup2(oldfd: i32, newfd: i32) -> Result<()> {
     Ok(())
 }
 
+/// Duplicate `fd` onto a close-on-exec descriptor above the standard ones.
+pub fn dup_above_std(fd: i32) -> Result<i32> {
+    fcntl(fd, libc::F_DUPFD_CLOEXEC, Some(3))
+}
+
 pub fn clear_cloexec(fd: i32) -> Result<()> {
     let old = fcntl(fd, F_GETFD, None)?;
     fcntl(fd, F_SETFD, Some(old & !FD_CLOEXEC))?;
